@@ -237,6 +237,14 @@ class Gen:
             return [("assign", ("var", tmp), e), ("assign", ("var", name), ("var", tmp))]
         return [("assign", ("var", name), e)]
 
+    HINTS = {"int": ["Number", "Number?", "Any"], "float": ["Number", "Any"], "bool": ["Bool", "Bool?"], "str": ["String", "Indexable", "Iterable", "String?"],
+             "list": ["List", "Indexable", "Iterable", "Any"], "tuple": ["Tuple", "Indexable", "Iterable"], "map": ["Map", "Indexable", "Iterable", "Map?"], "null": ["Null", "Number?", "Any"]}
+    def hint_for(self, kind):
+        if self.chance(0.04):
+            # a wrong hint: the program fails when checks are on (and the on/off relation does not apply)
+            return self.pick(["Number", "String", "List", "Map", "Bool", "Tuple", "Null", "Callable"])
+        return self.pick(self.HINTS[kind])
+
     def stmt(self, sc, d):
         self.budget -= 1
         r = self.rng.random()
@@ -245,7 +253,10 @@ class Gen:
             kind = self.pick(KINDS[:7])
             name = self.fresh()
             e = self.expr(kind, sc, d)
-            out = [("assign", ("var", name), e)]
+            target = ("var", name)
+            if "hints" in self.features and self.chance(0.6):
+                target = ("var", name, self.hint_for(kind))
+            out = [("assign", target, e)]
             sc.vars[name] = Var(name, kind)
             return out
         if r < 0.3:
@@ -351,7 +362,10 @@ class Gen:
                 inner = Scope(sc); inner.vars = dict(sc.vars)
                 inner.vars[x] = Var(x, ek if ek in KINDS else "opaque", protected=True)
                 body = self.body(inner, d)
-                loop = ("for", [("var", x)], it, body)
+                xt = ("var", x)
+                if "hints" in self.features and ek in KINDS and self.chance(0.5):
+                    xt = ("var", x, self.hint_for(ek))
+                loop = ("for", [xt], it, body)
             elif r < 0.8:
                 c = self.fresh("c")
                 n = self.rng.randint(0, 4)
@@ -443,7 +457,9 @@ class GenFn(Gen):
         for _ in range(n_req):
             r = self.rng.random()
             if r < 0.65:
-                n = self.fresh("a"); params.append((("var", n), None)); bound.append((n, "int")); shapes.append("int")
+                n = self.fresh("a")
+                pt = ("var", n, self.hint_for("int")) if ("hints" in self.features and self.chance(0.5)) else ("var", n)
+                params.append((pt, None)); bound.append((n, "int")); shapes.append("int")
             elif r < 0.75:
                 params.append((("ignore",), None)); shapes.append("int")
             elif r < 0.85:
